@@ -182,7 +182,32 @@ def gen_qval(rng):
     return ['v', gen_pval(rng)]
 
 
+def gen_num(rng, k=None):
+    k = rng.choice([0, 1, 1, 2, 7]) if k is None else k
+    forms = [['i', k], ['n', k, '%d.0' % k], ['n', k, '%d.00' % k]] + ([['n', k, 'True' if k else 'False']] if k in (0, 1) else [])
+    return rng.choice(forms)
+
+
+def gen_typed_query(rng):
+    """keys / values that are equal (==, same hash) but print differently, within one query"""
+    k = rng.choice([0, 1, 1, 2])
+    pairs = []
+    for _ in range(rng.choice([2, 2, 3])):
+        key = gen_num(rng, k) if rng.random() < 0.4 else ['s', rng.choice(['page', 'p q'])]
+        r = rng.random()
+        if r < 0.5:
+            val = ['v', gen_num(rng, k)]
+        elif r < 0.92:
+            val = ['q', [gen_num(rng, k) for _ in range(rng.choice([1, 2, 3]))], 'list']
+        else:
+            val = ['q', [['o', [k, 2]], gen_num(rng, k)], 'tuple']
+        pairs.append([key, val])
+    return ['l', pairs]
+
+
 def gen_query(rng):
+    if rng.random() < 0.06:
+        return gen_typed_query(rng)
     r = rng.random()
     if r < 0.3:
         return ['s', gen_text(rng, 8) if rng.random() < 0.7 else rng.choice(['a=1&b=2', 'q=a+b', 'x=%41', ''])]
@@ -370,6 +395,14 @@ def gen_current_case(rng):
             'ov': gen_ov(rng), 'kw': kw, 'warm': []}
 
 
+def gen_typed_query_case(rng):
+    c = rng.choice([gen_route_case, gen_resource_case, gen_current_case, gen_static_case])(rng)
+    c['ov']['query'] = gen_typed_query(rng)
+    if rng.random() < 0.5:
+        c['warm_q'] = [gen_typed_query(rng) for _ in range(rng.choice([1, 2]))]
+    return c
+
+
 def gen_typed_case(rng):
     """elements that are equal as cache keys but print differently"""
     k = rng.choice([0, 1, 1, 2, 7])
@@ -439,7 +472,7 @@ def generate(rng, tier, n):
         elif r < 0.80:
             yield gen_current_case(rng)
         elif r < 0.83:
-            yield gen_typed_case(rng) if typed else gen_route_case(rng)
+            yield (gen_typed_case(rng) if rng.random() < 0.5 else gen_typed_query_case(rng)) if typed else gen_route_case(rng)
         elif r < 0.92:
             yield gen_dec_case(rng)
         elif r < 0.95:
@@ -477,6 +510,7 @@ def targeted(broken, disagreements, rng):
                 out.append(c)
     for _ in range(300):
         out.append(gen_typed_case(rng))
+        out.append(gen_typed_query_case(rng))
     # every ASCII character in the first / a later segment of an asset under a URL registration
     for ch in [chr(i) for i in range(128)] + ['\xe9', '\u20ac']:
         for sub in ('a' + ch + 'b.css', 'd/' + ch + 'x', ch):
@@ -488,7 +522,7 @@ def targeted(broken, disagreements, rng):
     return out
 
 
-def _pval_ok(v):
+def _pval_ok(v, allow_o=False):
     if not isinstance(v, list) or not v:
         return False
     if v[0] == 's':
@@ -497,9 +531,11 @@ def _pval_ok(v):
         return len(v) == 2 and isinstance(v[1], list) and all(isinstance(b, int) and 0 <= b < 256 for b in v[1])
     if v[0] == 'i':
         return len(v) == 2 and isinstance(v[1], int) and not isinstance(v[1], bool) and abs(v[1]) < 2 ** 61
-    if v[0] == 'n':
+    if v[0] == 'n':     # bool / integral float / Decimal with two places: equal to the int v[1] as a dict key
         return len(v) == 3 and isinstance(v[1], int) and isinstance(v[2], str) and \
-            v[2] in ('%d.0' % v[1], {0: 'False', 1: 'True'}.get(v[1]))
+            v[2] in ('%d.0' % v[1], '%d.00' % v[1], {0: 'False', 1: 'True'}.get(v[1]))
+    if v[0] == 'o':     # an unhashable value (list of ints); only inside query sequences
+        return allow_o and len(v) == 2 and isinstance(v[1], list) and all(isinstance(x, int) and not isinstance(x, bool) for x in v[1])
     return False
 
 
@@ -530,7 +566,7 @@ def _query_ok(q):
         v = e[1]
         if not (isinstance(v, list) and v and ((v[0] == 'n' and len(v) == 1) or (v[0] == 'v' and len(v) == 2 and _pval_ok(v[1]))
                                                 or (v[0] == 'q' and len(v) == 3 and isinstance(v[1], list)
-                                                    and all(_pval_ok(x) for x in v[1]) and v[2] in ('list', 'tuple')))):
+                                                    and all(_pval_ok(x, True) for x in v[1]) and v[2] in ('list', 'tuple')))):
             return False
     if q[0] == 'd' and len({json.dumps(e[0]) for e in q[1]}) != len(q[1]):
         return False
@@ -594,6 +630,8 @@ def valid(case):
         if ov['port'] is not None and not (_pval_ok(ov['port']) and ov['port'][0] in ('s', 'i')):
             return False
         if not _query_ok(ov['query']) or not (ov['anchor'] is None or _pval_ok(ov['anchor'])):
+            return False
+        if not all(_query_ok(q) and q is not None for q in case.get('warm_q', [])):
             return False
         h = case['helper']
         if h in ('route', 'current'):
@@ -665,7 +703,7 @@ def shrinks(case):
         yield dict(case, env=dict(env, script_name=''))
     if env['http_host'] is not None:
         yield dict(case, env=dict(env, http_host=None))
-    for k in ('ov', 'kw', 'elements', 'warm', 'matchdict', 'get', 'names'):
+    for k in ('warm_q', 'ov', 'kw', 'elements', 'warm', 'matchdict', 'get', 'names'):
         if k in case:
             for sv in generic_shrinks(case[k]):
                 yield dict(case, **{k: sv})
@@ -719,6 +757,8 @@ def _w_pval(v):
         return [1, bytes(v[1])]
     if v[0] == 'i':
         return [2, v[1]]
+    if v[0] == 'o':
+        return [3, 0, str(list(v[1]))]
     return [3, v[1], v[2]]
 
 
@@ -729,7 +769,14 @@ def _py_pval(v):
         return bytes(v[1])
     if v[0] == 'i':
         return v[1]
-    return (v[1] == 1) if v[2] in ('True', 'False') else float(v[1])
+    if v[0] == 'o':
+        return list(v[1])
+    if v[2] in ('True', 'False'):
+        return v[1] == 1
+    if v[2].endswith('.00'):
+        from decimal import Decimal
+        return Decimal(v[2])
+    return float(v[1])
 
 
 def _opt(x, f=lambda y: y):
@@ -832,7 +879,7 @@ def from_wire(case, raw):
         return {'model': ['MODEL-BAD'], 'spec': None}
     if case['kind'] != 'gen':
         return {'model': raw, 'spec': None}
-    if len(raw) != 4 or len(raw[3]) != 6:
+    if len(raw) != 4 or len(raw[3]) != 7:
         return {'model': ['MODEL-BAD', raw], 'spec': None}
     return {'model': raw[:3], 'spec': raw[3]}
 
@@ -849,7 +896,8 @@ def setup(tier):
     from pyramid.request import Request
     import pyramid.url
     import pyramid.traversal
-    _impl.update(Configurator=Configurator, Request=Request, mods=[pyramid.url, pyramid.traversal], cfg={})
+    import pyramid.encode
+    _impl.update(Configurator=Configurator, Request=Request, mods=[pyramid.url, pyramid.traversal, pyramid.encode], cfg={})
     _regexes()
 
 
@@ -1003,6 +1051,11 @@ def run_impl(case):
                 req.resource_url(root, *[_py_pval(x) for x in w])
             except Exception:
                 pass
+    for wq in case.get('warm_q', []):
+        try:
+            req.resource_url(_Res('', None), query=_py_query(wq))
+        except Exception:
+            pass
     if h == 'route':
         def args():
             kw = {k: _py_kwval(v) for k, v in case['kw']}
@@ -1132,9 +1185,14 @@ def judge_gen(case, obs, spec):
     """-> (ok, reason, tag)"""
     from urllib.parse import urlsplit
     u, p = obs[0], obs[1]
-    if u[0] != 0 or spec is None or len(spec) != 6:
+    if spec is None or len(spec) != 7:
+        return None, 'no spec', None
+    auth, els, query, anchor, script, ext, must = spec
+    if u[0] != 0:
+        if must == 1:
+            return False, 'no URL produced (%s) although the route exists, every placeholder has a value and every ' \
+                'text can be encoded' % (u[1:],), 'url'
         return None, 'no URL produced', None
-    auth, els, query, anchor, script, ext = spec
     U = u[1]
     ov = case['ov']
     if ext:
@@ -1307,6 +1365,12 @@ def kinds(case, obs):
     out.append('host-' + ('none' if case['env']['http_host'] is None else 'port' if ':' in case['env']['http_host'] else 'bare'))
     if case.get('warm'):
         out.append('warm-cache')
+    if case.get('warm_q'):
+        out.append('warm-query')
+    if ov['query'] is not None and ov['query'][0] != 's' and any(
+            k[0] == 'n' or (v[0] == 'v' and v[1][0] == 'n') or (v[0] == 'q' and any(x[0] in 'no' for x in v[1]))
+            for k, v in ov['query'][1]):
+        out.append('query-typed-values')
     if case['helper'] == 'resource':
         out.append('vroot-' + ('none' if case.get('vroot') is None else 'given'))
         if case.get('rn') is not None:
